@@ -1,9 +1,16 @@
-(* Proofs about Model.parse_latency (parseT4T7Latency) and Model.parse_int10
-   (strconv.ParseInt(s, 10, 64)); finding B2. *)
+(* Proofs about Model.parse_latency (parseT4T7Latency after fix 3d18018) and
+   Model.parse_int10 (strconv.ParseInt(s, 10, 64)). *)
 From Coq Require Import ZArith NArith Lia Bool List.
 From GV Require Import Prober.F64 Prober.Model Prober.Monitors.
 Import ListNotations.
 Open Scope Z_scope.
+
+(* case analysis on every integer comparison in the goal *)
+Ltac zcases :=
+  repeat match goal with
+         | |- context [Z.leb ?a ?b] => destruct (Z.leb_spec a b)
+         | |- context [Z.ltb ?a ?b] => destruct (Z.ltb_spec a b)
+         end; cbn [orb andb negb].
 
 (* ------------------------------------------------------------------------ *)
 (** * What a decimal int64 literal is, independently of the parsing loop *)
@@ -142,7 +149,9 @@ Proof. reflexivity. Qed.
 
 Definition entry_result (txt : bytes) : lres :=
   match parse_int10 txt with
-  | POk ms => LOk (wrap64 (ms * millisecond))
+  | POk ms =>
+      if (max_duration_millis <? ms) || (ms <? - max_duration_millis) then LDurRange
+      else LOk (wrap64 (ms * millisecond))
   | PErr x => LParse x
   end.
 
@@ -217,7 +226,10 @@ Theorem latency_error_thm :
   (timing_values h t <> [] -> first_gfe (timing_values h t) = None -> parse_latency h t = LNoEntry) /\
   (* the first gfet4t7 entry is not a decimal int64 *)
   (forall txt, first_gfe (timing_values h t) = Some txt -> dec_spec txt = None ->
-               exists e, parse_latency h t = LParse e).
+               exists e, parse_latency h t = LParse e) /\
+  (* it is one, but that many milliseconds are not a time.Duration *)
+  (forall txt ms, first_gfe (timing_values h t) = Some txt -> dec_spec txt = Some ms ->
+                  max_int64 / 1000000 < Z.abs ms -> parse_latency h t = LDurRange).
 Proof.
   intros h t. rewrite latency_structure. repeat split.
   - intros ->. reflexivity.
@@ -225,48 +237,77 @@ Proof.
   - intros txt F D. destruct (timing_values h t) as [|v vs]; [discriminate |].
     rewrite F. unfold entry_result.
     pose proof (parse_int10_spec txt) as P. rewrite D in P. destruct P as [e ->]. now exists e.
+  - intros txt ms F D G. destruct (timing_values h t) as [|v vs]; [discriminate |].
+    rewrite F. unfold entry_result.
+    pose proof (parse_int10_spec txt) as P. rewrite D in P. rewrite P.
+    unfold max_duration_millis, millisecond, max_int64, two63 in *.
+    change ((9223372036854775808 - 1) / 1000000) with 9223372036854 in *.
+    zcases; try reflexivity; exfalso; lia.
 Qed.
 
-(* the value, when the millisecond count converts without overflow *)
+(* the value: exactly ms milliseconds whenever that is a time.Duration *)
 Theorem latency_value_thm :
   forall h t txt ms,
   first_gfe (timing_values h t) = Some txt -> dec_spec txt = Some ms ->
-  Z.abs ms <= max_int64 / 1000000 ->
-  parse_latency h t = LOk (ms * 1000000).
+  parse_latency h t =
+  if Z.abs ms <=? max_int64 / 1000000 then LOk (ms * 1000000) else LDurRange.
 Proof.
-  intros h t txt ms F D G. rewrite latency_structure.
+  intros h t txt ms F D. rewrite latency_structure.
   destruct (timing_values h t) as [|v vs]; [discriminate |].
   rewrite F. unfold entry_result.
   pose proof (parse_int10_spec txt) as P. rewrite D in P. rewrite P.
-  f_equal. unfold wrap64, millisecond, two63, two64, max_int64, two63 in *.
-  change ((9223372036854775808 - 1) / 1000000) with 9223372036854 in G.
-  rewrite Z.mod_small by lia. lia.
+  unfold max_duration_millis, wrap64, millisecond, two63, two64, max_int64, two63 in *.
+  change ((9223372036854775808 - 1) / 1000000) with 9223372036854 in *.
+  zcases; try reflexivity; try (exfalso; lia).
+  f_equal. rewrite Z.mod_small by lia. lia.
 Qed.
 
-(* on its own outputs the model satisfies the monitor unless B2's trigger fires *)
-Theorem c18_latency_on_model :
-  forall h t, k_B2 h t = false -> c18_latency h t (OLres (parse_latency h t)) = true.
+(* a returned duration is never a wrapped-around product *)
+Theorem latency_no_wrap_thm :
+  forall h t d, parse_latency h t = LOk d ->
+  exists txt ms, first_gfe (timing_values h t) = Some txt /\ dec_spec txt = Some ms /\
+                 d = ms * 1000000 /\ in_int64 d = true.
 Proof.
-  intros h t K. unfold c18_latency, latency_spec, k_B2 in *. rewrite latency_structure.
+  intros h t d H. rewrite latency_structure in H.
+  destruct (timing_values h t) as [|v vs]; [discriminate |].
+  destruct (first_gfe (v :: vs)) as [txt|] eqn:F; [| discriminate].
+  unfold entry_result in H. destruct (parse_int10 txt) as [ms|e] eqn:P; [| discriminate].
+  apply parse_int10_ok_iff in P.
+  destruct ((max_duration_millis <? ms) || (ms <? - max_duration_millis)) eqn:R; [discriminate |].
+  apply orb_false_iff in R. destruct R as [R1 R2]. apply Z.ltb_ge in R1, R2.
+  inversion H; subst d. exists txt, ms. repeat split; try assumption.
+  - unfold max_duration_millis, wrap64, millisecond, two63, two64, max_int64, two63 in *.
+    change ((9223372036854775808 - 1) / 1000000) with 9223372036854 in *.
+    rewrite Z.mod_small by lia. lia.
+  - unfold max_duration_millis, wrap64, millisecond, in_int64, min_int64, max_int64, two63, two64 in *.
+    change ((9223372036854775808 - 1) / 1000000) with 9223372036854 in *.
+    rewrite Z.mod_small by lia. apply andb_true_iff. split; apply Z.leb_le; lia.
+Qed.
+
+(* on its own outputs the model satisfies the monitor, for all metadata *)
+Theorem c18_latency_on_model :
+  forall h t, c18_latency h t (OLres (parse_latency h t)) = true.
+Proof.
+  intros h t. unfold c18_latency, latency_spec. rewrite latency_structure.
   destruct (timing_values h t) as [|v vs] eqn:TV.
   - simpl. reflexivity.
   - destruct (first_gfe (v :: vs)) as [txt|]; [| reflexivity].
     unfold entry_result. destruct (parse_int10 txt) as [ms | e]; [| reflexivity].
-    apply negb_false_iff in K. rewrite K.
-    unfold wrap64. unfold in_int64, min_int64, max_int64, two63 in K.
-    apply andb_true_iff in K. destruct K as [K1 K2]. apply Z.leb_le in K1, K2.
-    unfold two63, two64. rewrite Z.mod_small by lia. apply Z.eqb_eq. lia.
+    unfold max_duration_millis, wrap64, millisecond, in_int64, min_int64, max_int64, two63, two64.
+    change ((9223372036854775808 - 1) / 1000000) with 9223372036854.
+    zcases; try reflexivity; try (exfalso; lia).
+    rewrite Z.mod_small by lia. apply Z.eqb_eq. lia.
 Qed.
 
-(* ---- finding B2: beyond the guard the multiplication wraps, silently ---- *)
+(* ---- the input of the former finding B2 (fixed by 3d18018) ---- *)
 (* "gfet4t7; dur=9999999999999999" *)
 Definition b2_entry : bytes :=
   gfe_prefix ++ [57; 57; 57; 57; 57; 57; 57; 57; 57; 57; 57; 57; 57; 57; 57; 57]%N.
 
-Theorem latency_value_refuted :
+Theorem latency_former_B2_input :
   dec_spec [57; 57; 57; 57; 57; 57; 57; 57; 57; 57; 57; 57; 57; 57; 57; 57]%N = Some 9999999999999999 /\
-  parse_latency [(server_timing_key, [b2_entry])] [] = LOk 1864712049422024128 /\
-  1864712049422024128 <> 9999999999999999 * 1000000 /\
-  (* 1864712049422024128 ns = 517975h 20m 49.4s *)
-  1864712049422024128 / (3600 * 1000000000) = 517975.
-Proof. vm_compute. repeat split; try reflexivity; discriminate. Qed.
+  parse_latency [(server_timing_key, [b2_entry])] [] = LDurRange /\
+  (* the pre-fix answer, 9999999999999999 * 10^6 wrapped into int64, is rejected by the monitor *)
+  wrap64 (9999999999999999 * 1000000) = 1864712049422024128 /\
+  c18_latency [(server_timing_key, [b2_entry])] [] (OLres (LOk 1864712049422024128)) = false.
+Proof. vm_compute. repeat split; reflexivity. Qed.
